@@ -16,16 +16,23 @@ import (
 
 // Spec is what the driver asks one worker process to do.
 type Spec struct {
-	Profile   string   `json:"profile"`
-	Tier      string   `json:"tier"`
-	Seed      uint64   `json:"seed"`  // base seed (VERIF_SEED)
-	From      int      `json:"from"`  // first run index
-	Count     int      `json:"count"` // number of runs
-	Out       string   `json:"out"`
-	Replay    *Replay  `json:"replay,omitempty"`
-	Replays   []Replay `json:"replays,omitempty"` // batch of candidates (minimiser)
-	MaxWallS  float64  `json:"max_wall_s,omitempty"`
-	KeepTrace bool     `json:"keep_trace,omitempty"`
+	Profile   string     `json:"profile"`
+	Tier      string     `json:"tier"`
+	Seed      uint64     `json:"seed"`  // base seed (VERIF_SEED)
+	From      int        `json:"from"`  // first run index
+	Count     int        `json:"count"` // number of runs
+	Out       string     `json:"out"`
+	Replay    *Replay    `json:"replay,omitempty"`
+	Replays   []Replay   `json:"replays,omitempty"` // batch of candidates (minimiser)
+	MaxWallS  float64    `json:"max_wall_s,omitempty"`
+	KeepTrace bool       `json:"keep_trace,omitempty"`
+	Known     []KnownSig `json:"known,omitempty"` // recorded findings: reported once, never stop the search
+}
+
+type KnownSig struct {
+	Property  string `json:"property"`
+	Kind      string `json:"kind"`
+	Signature string `json:"signature"`
 }
 
 type Replay struct {
@@ -41,6 +48,7 @@ type RunViolation struct {
 	Schedule  []string         `json:"schedule"`
 	Hash      string           `json:"hash"`
 	Trace     []string         `json:"trace"`
+	Known     bool             `json:"known,omitempty"`
 }
 
 type BatchResult struct {
@@ -75,6 +83,7 @@ type Result struct {
 	Hashes     map[string]string `json:"hashes,omitempty"` // run index -> history hash (determinism test)
 	Batch      []BatchResult     `json:"batch,omitempty"`
 	Error      string            `json:"error,omitempty"`
+	KnownHits  map[string]int    `json:"known_hits,omitempty"`
 	Rule       string            `json:"rule,omitempty"`
 	Expect     []string          `json:"expect_probes,omitempty"`
 }
@@ -101,7 +110,7 @@ func TestWorker(t *testing.T) {
 	if err := json.Unmarshal(raw, &spec); err != nil {
 		t.Fatal(err)
 	}
-	res := &Result{Profile: spec.Profile, Faults: map[string]int{}, Probes: map[string]int{}, Hashes: map[string]string{}}
+	res := &Result{Profile: spec.Profile, Faults: map[string]int{}, Probes: map[string]int{}, Hashes: map[string]string{}, KnownHits: map[string]int{}}
 	defer func() {
 		b, _ := json.Marshal(res)
 		_ = os.WriteFile(spec.Out, b, 0o644)
@@ -160,8 +169,20 @@ func TestWorker(t *testing.T) {
 				continue
 			}
 			seen[k] = true
+			known := false
+			for _, ks := range spec.Known {
+				if ks.Property == v.Property && ks.Kind == v.Kind && ks.Signature == v.Sig {
+					known = true
+				}
+			}
+			if known {
+				res.KnownHits[k]++
+				if res.KnownHits[k] > 1 {
+					continue
+				}
+			}
 			if len(res.Violations) < 40 {
-				res.Violations = append(res.Violations, RunViolation{Run: idx, RunSeed: plan.Seed, Violation: v, Plan: plan, Schedule: out.Schedule, Hash: out.Hash, Trace: out.Hist.Trace(600)})
+				res.Violations = append(res.Violations, RunViolation{Run: idx, RunSeed: plan.Seed, Violation: v, Plan: plan, Schedule: out.Schedule, Hash: out.Hash, Trace: out.Hist.Trace(600), Known: known})
 			}
 		}
 	}
